@@ -84,8 +84,13 @@ TAG_OPEN_END = re.compile(rb"<[ \t\n\r\f\v]*[A-Za-z][A-Za-z-]*\Z")
 
 def check_attrs(ctx, data, t, case):
     in_tag = False
-    for p, r in zip(t.parts, t.reducible):
+    for k, (p, r) in enumerate(zip(t.parts, t.reducible)):
         if r:
+            # complete also means: not continued — an unquoted value runs up to white space or '>'
+            nxt = b"".join(t.parts[k + 1:])[:1]
+            if b"=" in p and p[-1:] not in b"\"'" and p[-1:] != b"=" and nxt and nxt not in b" \t\r\n\f\v>":
+                ctx.fail("attr-not-an-attribute", f"reducible atom {p!r} is a fragment: its unquoted value continues with {nxt!r} (parts={t.parts!r})", case)
+                return
             if not IS_ATTR.match(p):
                 ctx.fail("attr-not-an-attribute", f"reducible atom {p!r} is not one complete attribute (parts={t.parts!r})", case)
                 return
